@@ -39,14 +39,11 @@ impl<T: PartialEq> PartialEq for NumbatList<T> {
         if self.len() != other.len() {
             return false;
         }
-        // Second best case, the other slice comes from the same allocation and
-        // has the same view => they are equal
-        if Arc::ptr_eq(&self.alloc, &other.alloc) && self.view == other.view {
-            true
-        } else {
-            // Worst case scenario, we need to compare all the elements one by one
-            self.iter().zip(other.iter()).all(|(l, r)| l == r)
-        }
+        // We need to compare all the elements one by one. Note that we can not take a
+        // shortcut if both lists come from the same allocation: equality of the elements
+        // is not necessarily reflexive (NaN), and the result must not depend on whether
+        // or not two lists happen to share their storage.
+        self.iter().zip(other.iter()).all(|(l, r)| l == r)
     }
 }
 
